@@ -208,6 +208,19 @@ theorem runRows_interp' (ext : Ext) (fields : List Field) (rows : List SVal) (ro
   subst hlen
   exact ⟨_, _, _, _, _, rfl, by rw [dec_struct]; rfl⟩
 
+/-- non-vacuity of `runRows_interp'` OUTSIDE `covered`: `d: Dictionary(Int8, Int32)?` — the value builder refuses strings — is
+inside `coveredWF`; a batch of nulls is accepted and the hypotheses of R3' hold; a string is refused by the builder and
+undefined in the specification alike -/
+def exRefusingFields : List Field := [.mk "d" (.dictionary .int8 .int32) true []]
+def exRefusingRows : List SVal := [.record "R" (.cons "d" 0 .none .nil), .record "R" (.cons "d" 0 .unit .nil)]
+
+example : exRefusingFields.all coveredWF = true ∧ exRefusingFields.all coveredF = false ∧
+    (∀ x ∈ exRefusingRows, structStreamsAlternate x = true) ∧ (∀ x ∈ exRefusingRows, noRaw x = true) ∧
+    (runRows {} exRefusingFields exRefusingRows).isOk = true ∧
+    (exRefusingRows.map (interpRow {} exRefusingFields)).all (·.isOk) = true ∧
+    (interpRow {} exRefusingFields (.record "R" (.cons "d" 0 (.str "5") .nil))).isErr = true ∧
+    (toMarrow {} exRefusingFields [.record "R" (.cons "d" 0 (.str "5") .nil)]).isErr = true := by decide +kernel
+
 /-! ## the end-to-end statements -/
 
 /-- **C01 for `to_marrow` — `C01_build_decode` WITHOUT `hsafe`.**  Whenever serializing `rows` against `fields` succeeds,
